@@ -301,20 +301,25 @@ def run_queries(chk: Check, prog: Program) -> None:
         chk.verdict(not probs, "C14.R5", "C14.R5:find_type", f"find_type: {p.cond}", "; ".join(probs), where=m.where)
     # ---- local structure queries on generic binary trees
     cfgb = {"tree_mode": "binary", "max_updepth": 2, "max_downdepth": 2}
-    T = frozenset(["BinaryTreeNode"])
+    from .common import value_equal_classes
+    veq = value_equal_classes(prog)
+    # node classes that compare by value (when the package defines any) take part next to the plain node class: the
+    # queries must follow the links, not what == says about two different nodes
+    universes = [frozenset(["BinaryTreeNode"])] + ([frozenset(veq[:3] + ["BinaryTreeNode"])] if veq else [])
+    chk.analysed["node_classes_comparing_by_value"] = veq
 
     def run_local(fname: str, setup, judge):
         mm = prog.func("tree", f"BinaryTreeNode.{fname}")
-
-        def body(it: Interp):
-            node = it.new_summary(T, "arg")
-            it.arg = node
-            args = setup(it, node)
-            return it.call_function(mm, [node] + args, {})
-        for p in explore(prog, body, cfgb):
-            probs = judge(p.interp, p)
-            chk.verdict(not probs, "C14.R5", f"C14.R5:{fname}", f"{fname}: {p.cond}", "; ".join(probs),
-                        witness={"configuration": p.cond}, where=mm.where)
+        for T in universes:
+            def body(it: Interp, T=T):
+                node = it.new_summary(T, "arg")
+                it.arg = node
+                args = setup(it, node)
+                return it.call_function(mm, [node] + args, {})
+            for p in explore(prog, body, cfgb):
+                probs = judge(p.interp, p)
+                chk.verdict(not probs, "C14.R5", f"C14.R5:{fname}", f"{fname}: {p.cond}", "; ".join(probs),
+                            witness={"configuration": p.cond}, where=mm.where)
 
     def _unread(it):
         return [s for s in ("left", "right") if _field(it, it.arg.cid, s) is _MISSING]
@@ -376,8 +381,8 @@ def run_queries(chk: Check, prog: Program) -> None:
 
     # get_side(child) for child = left child / right child / unrelated node
     mm = prog.func("tree", "BinaryTreeNode.get_side")
-    for which in ("left", "right", "stranger"):
-        def body(it: Interp, which=which):
+    for which, T in [(w, u) for w in ("left", "right", "stranger") for u in universes]:
+        def body(it: Interp, which=which, T=T):
             node = it.new_summary(T, "arg")
             it.arg = node
             if which == "stranger":
